@@ -270,6 +270,28 @@ func c16ReadOnly(w *core.W, j int) {
 		}
 		w.Count("readonly_noncanonical_values", 1)
 	}
+	if j%4 >= 2 {
+		// records (and EDNS0 options) with one or two fields set by hand to values a decoder would not
+		// deliver - length companions that disagree, unpadded base64, an option with no address family:
+		// whether or not such a value can be packed, looking at it must not change it
+		all := append(append(append([]dns.RR{}, built.Answer...), built.Ns...), built.Extra...)
+		if j%8 >= 6 {
+			o := &dns.OPT{Hdr: dns.RR_Header{Name: ".", Rrtype: dns.TypeOPT, Class: 1232}}
+			o.Option = append(o.Option, &dns.EDNS0_SUBNET{Code: dns.EDNS0SUBNET, Family: uint16(j / 8 % 3), SourceNetmask: uint8(8 + j%25), Address: [][]byte{{192, 0, 2, 0}, net.ParseIP("192.0.2.0"), net.ParseIP("2001:db8::")}[j/24%3]},
+				&dns.EDNS0_COOKIE{Code: dns.EDNS0COOKIE, Cookie: "0123456789abcde"}, &dns.EDNS0_EXPIRE{Code: dns.EDNS0EXPIRE}, &dns.EDNS0_TCP_KEEPALIVE{Code: dns.EDNS0TCPKEEPALIVE})
+			built.Extra = append(built.Extra, o)
+			all = append(all, o)
+		}
+		n := 0
+		for _, rr := range all {
+			if g.R.IntN(2) == 0 {
+				if t := handMutate(g, rr); len(t) > 0 {
+					n++
+				}
+			}
+		}
+		w.Count("readonly_hand_set_records", n)
+	}
 	ops := []struct {
 		name string
 		f    func(m *dns.Msg)
@@ -547,7 +569,7 @@ func init() {
 	core.Register(&core.Monitor{
 		ID: "C16", Level: "exploration", Plan: plan, Run: run, Race: true,
 		Rule: "every registry type (struct-built and decoder-built) incl. every EDNS0 option and SVCB parameter kind, and whole messages; oracle = object-graph walker: address ranges of every slice backing array, pointer target and map " +
-			"reachable from copy vs original (and from a decoded message vs the input buffer incl. string data, plus overwrite-and-compare); deep snapshot before/after Pack, PackBuffer, Len, String, Copy, IsDuplicate (also on program-built values: 16-octet IPv4 addresses, APL prefixes with host bits set, SVCB parameters and mandatory key lists not in key order), RRSIG.Sign/Verify (incl. wildcard-expanded owners); " +
+			"reachable from copy vs original (and from a decoded message vs the input buffer incl. string data, plus overwrite-and-compare); deep snapshot before/after Pack, PackBuffer, Len, String, Copy, IsDuplicate (also on program-built values: 16-octet IPv4 addresses, APL prefixes with host bits set, SVCB parameters and mandatory key lists not in key order, records and EDNS0 options with fields set by hand incl. values that cannot be packed), RRSIG.Sign/Verify (incl. wildcard-expanded owners); " +
 			"the same operations concurrently on a shared message under the Go race detector; non-trivial = distinct record/message with at least one reachable mutable range",
 		Assumptions: []string{"strings are immutable and exempt from the copy check", "Rdlength and the OPT extended-RCODE bits are documented bookkeeping"},
 		MinObserved: []string{"msg_copies", "unpack_alias_checks", "readonly_ops", "signed", "verified", "wildcard_expansions", "concurrent_rounds"},
